@@ -381,7 +381,7 @@ def run(ck: Check):
         "chunk_size in {None,1,2,3,w,w+1}, bandwidth grid, streams up to 60 updates, optional update-before-fit, reset (+ update while unfitted) + refit with a "
         "different reference, and second fit without reset; every update compared with: None until window_size values since the last reset, then the index-pair "
         "double sum between the reference in force and the last window_size values (monitor, w >= 2), and with a fresh batch detector on that window; "
-        "w = 1 is outside n,m >= 2 (both sides nan) and only checked for streaming = batch; non-trivial = the ring wraps after a reset or refit"
+        "w = 1 is outside n,m >= 2 (both sides nan) and only checked for streaming = batch; after every reset the remaining calls are replayed on a NEW detector and compared with exact float equality (no tolerance); non-trivial = the ring wraps after a reset or refit"
     )
     n_stream = 60 if not thorough else 400
     sc = []
@@ -464,6 +464,27 @@ def run(ck: Check):
                     dict(replay_kind="stream", what="streaming MMD update differs from (None until window_size values, then the estimator on the last window_size values)", w=w, chunk_size=chunk, sigma=sigma, events=ev_json(events[: idx + 1]), got=got, expected=expd),
                 )
                 break
+        # reset = new instance, bit for bit (C09_reset_fresh_exact): the calls after every reset are replayed
+        # on a freshly constructed detector and compared with exact float equality (no tolerance: 1e-9 would
+        # hide a window handed over in a different storage order)
+        if ok:
+            for r_idx, ev in enumerate(events):
+                if ev[0] != "reset":
+                    continue
+                tail = events[r_idx + 1 :]
+                fresh = impl_stream(w, chunk, sigma, tail)
+                ck.count("reset_vs_fresh_runs")
+                for j, (a, f_) in enumerate(zip(outs[r_idx + 1 :], fresh)):
+                    ck.count("reset_vs_fresh_calls")
+                    if not exact_same(a[1], f_[1]):
+                        ok = False
+                        ck.violation(
+                            dict(clause="reset-fresh-exact", ndim=1 if d is None else 2),
+                            dict(replay_kind="stream-fresh", what="after reset the detector does not answer exactly as a new instance", w=w, chunk_size=chunk, sigma=sigma, events=ev_json(events[: r_idx + 2 + j]), reset_index=r_idx, got=a[1], fresh=f_[1]),
+                        )
+                        break
+                if not ok:
+                    break
         ck.case(dict(kind="stream", w=w, d=d, chunk=chunk, sigma=sigma, plan=plan, updates=L, events=len(events)), nontrivial=wrapped and plan != "plain", key=repr((w, chunk, sigma, ev_json(events))))
         ck.count(f"w_{w}")
         ck.count("plan_" + plan)
@@ -488,6 +509,13 @@ def run(ck: Check):
                     break
         if bad is not None:
             ck.mismatch("Model/MMD.v ms_run (FloatA) vs streaming MMD", dict(replay_kind="corr-stream", w=w, chunk_size=chunk, sigma=sigma, events=ev_json(events), first_difference=bad, impl=io, model=mo))
+
+
+def exact_same(a, b):
+    """exact equality of two outcomes (None / exception name / float, nan = nan)"""
+    if isinstance(a, float) and isinstance(b, float):
+        return a == b or (math.isnan(a) and math.isnan(b))
+    return a == b and type(a) is type(b)
 
 
 def ev_json(events):
@@ -560,6 +588,12 @@ def replay(obj):
         e = mmd_direct(X2, Y, sv) if rk == "refit" else obj["model"]
         print(f"got={got} expected={e}")
         return 0 if agree(got, e) else 1
+    if rk == "stream-fresh":
+        events = ev_from_json(obj["events"], None)
+        outs = impl_stream(obj["w"], obj["chunk_size"], sigma, events)
+        fresh = impl_stream(obj["w"], obj["chunk_size"], sigma, events[obj["reset_index"] + 1 :])
+        print(f"after reset: {outs[-1][1]!r}; new instance: {fresh[-1][1]!r}")
+        return 0 if exact_same(outs[-1][1], fresh[-1][1]) else 1
     if rk in ("stream", "corr-stream"):
         events = ev_from_json(obj["events"], None)
         outs = impl_stream(obj["w"], obj["chunk_size"], sigma, events)
@@ -585,6 +619,7 @@ def main(tier, seed):
         "the kernel callable is modelled as a point function k with kernel(A,B)[i,j] = k(A[i],B[j]) (true of rbf_kernel); cdist's sqeuclidean is the plain coordinate loop",
         "fit-cache = static-path (C09_fit_cache) and the ring-buffer theorems hold in every number system, binary64 included",
         "streaming theorem: window_size >= 2 (for window_size = 1 the batch value is 0/0 = nan and so is the streaming one; checked by correspondence only)",
+        "reset = new instance (C09_reset_fresh_exact) holds in every number system for all histories; the harness checks it with exact float equality",
     ]
     run(ck)
     return ck.finish()
